@@ -933,8 +933,6 @@ func main() {
 		findWitnesses(r)
 		return
 	}
-	allocCheck(r)
-
 	nCases, maxUnits := 260, 40
 	if r.Thorough {
 		nCases, maxUnits = 4000, 400
@@ -966,6 +964,7 @@ func main() {
 
 	divOps(r)
 	dctChecks(r)
+	allocCheck(r) // last, so that a failing case with a replayable op sequence is reported first
 
 	r.Extra("oracle_cases", r.NOps())
 	r.Finish("cases = stateful Reset/AddN sequences on lowleveljpeg.Encoder over sizes (1x1, around multiples of 8/16, 65535x1, 65535x65535 via setadds), three colour types, nil/standard/all-1/all-255/random quantisation tables and blocks aimed at code-length, run-length (15/16/17/62), category and stuffing branches, with protocol errors injected; distinct non-trivial = complete files (colour type, size, content hash) decoded by the independent T.81 decoder and compared coefficient by coefficient; plus div, FDCT/IDCT ops")
